@@ -212,7 +212,8 @@ static void iv_work_event(void *_pool)
 
 	if (pool->shutting_down) {
 		___mutex_lock(&pool->lock);
-		if (!pool->started_threads && iv_list_empty(&pool->work_done)) {
+		if (!pool->started_threads && iv_list_empty(&pool->work_done) &&
+		    iv_list_empty(&pool->work_items)) {
 			___mutex_unlock(&pool->lock);
 			___mutex_destroy(&pool->lock);
 			iv_event_unregister(&pool->ev);
